@@ -25,6 +25,17 @@ CHECKS = {
         "cells per axis. Not decided: meaning of arbitrary user expressions (C11); compiled MixedBC with linked value arrays; the "
         "parsing of nested BC specifications beyond the alias registry.",
     },
+    "C05": {
+        "level": "proof",
+        "technique": "static: column-sum identities on stencil tables extracted by abstract interpretation, with cell volumes and ghost-cell formulas extracted from the grid / boundary-condition classes",
+        "text": "Proves, identically in shape, spacing, position and inner radius, that every input cell has coefficient 0 in the "
+        "volume-weighted sum of the discrete Laplacian (Cartesian 1-3d, polar, conservative spherical, cylindrical; zero-flux or "
+        "periodic ghost cells as extracted from NeumannBC/_PeriodicBC) and of the central divergence (Cartesian, conservative "
+        "spherical; normal Dirichlet-0 or periodic), for first/interior/last cells on every axis. Also: the configuration default "
+        "selects the conservative spherical stencils, and the non-conservative Laplacian fails the identity (positive control).",
+        "note": "Trusted: CPython ast, sympy; V(cell) = product of cell_volume_data factors. Not decided: whole-simulation consequence "
+        "beyond linearity of explicit updates (C06), converged implicit iterations, round-off, one-sided divergence variants.",
+    },
 }
 
 NOT_APPLICABLE: dict[str, str] = {}
